@@ -163,8 +163,13 @@ def gen_workload(rng, profile="c06"):
         # re-marked): nobody else uses that upstream
         d = [k for (k, how) in s["embed"] if how == "direct"]
         if (s["cls"] in ("VTask", "VTaskOut") and single(j) and j not in aspre and d and krng.random() < 0.5
+                and not s.get("adopt")
                 and jobs[d[0]]["cls"] in ("VTaskOut", "VTaskBag") and single(d[0]) and len(uses[d[0]]) == 1):
             s["cls"] = "VTaskRelay"
+            # (no success marker for it: the harness writes the marker when the Job object is created, and the
+            #  identifier - hence the directory - of a task that re-marks one of its parameters is not the same
+            #  before and after task_outputs when pre-tasks are involved; identifiers are C01/C02's ground)
+            s["marker"] = False
     # some plain tasks are collection-like: falsy as long as their `items` parameter is empty
     # a re-submission may come with the Dependency objects of the first one (same requests then)
     for s in jobs:
@@ -569,8 +574,14 @@ def oracle_c07(w, trace, report):
                        f"leaving / waiting on the experiment completed ({sn['wait']}) while jobs {running} had not run to completion")
             if sn["wait"] == "raised" and not anyerr and allfinal:
                 report("C07:failure-reported-without-failed-job", "FailedExperiment raised, no job ended ERROR")
-            if sn["wait"] == "returned" and anyerr:
-                report("C07:failure-not-reported", "wait() returned normally although a job ended ERROR")
+            # (since ccf82b1 a failed job that has been submitted again is judged by that later submission)
+            ids = idents(w)
+            last = [j for j, o in enumerate(sn["jobs"]) if o is not None and o["registered"] and o["result"] == "ERROR"
+                    and not any(ids[y] == ids[j] and oy is not None and oy["registered"]
+                                for y, oy in enumerate(sn["jobs"]) if y > j)]
+            if sn["wait"] == "returned" and last:
+                report("C07:failure-not-reported", f"wait() returned normally although job(s) {last} ended ERROR "
+                                                   f"(and were not submitted again)")
         prev_wait = sn["wait"]
 
 
@@ -655,7 +666,7 @@ def g_case(w, trace, fx):
                     f"j_marker := {gbool(spec['marker'])}; j_ident := {ids[j]}%nat; j_adopt := {g_adopt(spec.get('adopt'))} |}}")
     W = f"{{| w_jobs := {glist(jobs)}; w_tokens := {glist(str(t) + '%nat' for t in w['tokens'])} |}}"
     F = (f"{{| fx2 := {gbool(fx[0])}; fx3 := {gbool(fx[1])}; fx4 := {gbool(fx[2])}; fx5 := true; "
-         f"fx6 := {gbool(fx[3])} |}}")
+         f"fx6 := {gbool(fx[3])}; fx7 := {gbool(fx[4])} |}}")
     # (a refused submission changes nothing in the scheduler: it is not a step of the model)
     tr = glist(f"({g_action(s['act'])}, {g_snap(s['snap'])})" for s in trace["steps"] if s["act"][0] != "refused")
     R = glist(f"{int(k)}%nat" for k in sorted(refused, key=int))
@@ -679,7 +690,10 @@ def probe_fixes(traces4):
     # the job whose old process is still running is shown ERROR when its input has failed
     f6 = not any(s["snap"]["jobs"][1] is not None and s["snap"]["jobs"][1]["state"] == "ERROR" and
                  [1, "adopt"] in s["snap"]["pending"] for s in t6["steps"])
-    return (f2, f3, f4, f6)
+    # leaving the experiment after the failed job has been submitted again and has succeeded: no failure reported
+    sn2 = last_snap(t2)
+    f7 = bool(sn2) and sn2["wait"] == "returned"
+    return (f2, f3, f4, f6, f7)
 
 
 def sample(w, trace):
@@ -740,7 +754,8 @@ def run_sched_check(c, profile, oracles, n_quick, n_thorough, golden_name, rule,
     c.extra["parameters_searched_under_a_copied_mark"] = copyfix
     c.extra["repairs_present_in_implementation"] = dict(resubmit_registers=fx[0], ready_only_when_notstarted=fx[1],
                                                         aborted_start_keeps_ready=fx[2],
-                                                        failed_dependency_spares_running_job=fx[3])
+                                                        failed_dependency_spares_running_job=fx[3],
+                                                        resubmission_drops_recorded_failure=fx[4])
     render = []
     for w, t in zip(cases, traces):
         c.evaluations += 1
